@@ -78,6 +78,18 @@ def spec_tree_pred(kind, t, args, p, q):
     raise ValueError(kind)
 
 
+def lcp_len(p, q):
+    n = 0
+    while n < len(p) and n < len(q) and p[n] == q[n]:
+        n += 1
+    return n
+
+
+def is_nonterminal_label(t, p):
+    from isla.helpers import is_nonterminal
+    return bool(is_nonterminal(t.get_subtree(p).value))
+
+
 def impl_outcome(f, *a):
     try:
         return ("ok", bool(f(*a)))
@@ -199,16 +211,43 @@ def run(run):
             t, ms = smeta[k]
             kind, args, p, q, o = ms[i]
             spec = None
-            if all(is_prefix(()[:0], x) for x in (p, q)):
-                try:
-                    spec = spec_tree_pred(kind, t, args, p, q)
-                except Exception as e:
-                    spec = f"spec-undefined: {e}"
+            try:
+                spec = spec_tree_pred(kind, t, args, p, q)
+            except Exception as e:
+                spec = f"spec-undefined: {e}"
             disagreements.append({"pred": kind, "args": args, "tree": tree_json(t), "path_1": list(p),
                                   "path_2": list(q), "impl": o, "spec": spec})
     except RuntimeError as e:
         run.violation({"kind": "correspondence-not-evaluable", "obligation": "Preds.v tree cases", "error": str(e)[-2000:]},
                       found_input=False)
+
+    # ---- 2b. property-level oracle on EVERY tree case (not only on model/impl disagreements):
+    #      implementation vs. the declarative spec; the recorded class K_cons_rel is a known finding
+    known = [e for e in lib.known_findings("C04") if e.get("status") == "open"]
+    kcons = next((e for e in known if e.get("class") == "K_cons_rel"), None)
+    spec_fail, n_known = [], 0
+    for (t, ms) in smeta:
+        for kind, args, p, q, o in ms:
+            if o[0] != "ok":
+                continue
+            if kind == "nth" and not is_nonterminal_label(t, p):
+                continue
+            sp = spec_tree_pred(kind, t, args, p, q)
+            if o[1] != sp:
+                if kind == "consecutive" and kcons is not None and lcp_len(p, q) > 0 and o[1] is True and sp is False:
+                    n_known += 1
+                    continue
+                spec_fail.append({"pred": kind, "args": args, "tree": tree_json(t), "path_1": list(p),
+                                  "path_2": list(q), "impl": o, "spec": sp})
+    run.cov["impl_vs_spec_known_K_cons_rel"] = n_known
+    # replay the recorded witness of every open finding on the implementation
+    for e in known:
+        w = e["witness"]
+        t = tree_from_json(w["tree"])
+        o = impl_outcome(PREDS[w["pred"]].evaluate, t, *w.get("args", []), tuple(w["path_1"]), tuple(w["path_2"]))
+        if o == ("ok", w["impl"]) and w["impl"] != w["spec"]:
+            run.known(e["what"])
+    disagreements.extend(d for d in spec_fail if d not in disagreements)
 
     # ---- 3. classify ----
     run.cov["disagreements_checked"] = len(disagreements)
